@@ -319,6 +319,88 @@ Proof.
     intros ci a d Hd. rewrite C2. apply reset_store_marked, Hd.
 Qed.
 
+(* the same without the FMS, for a pass in which no callback raises *)
+Definition calm (p : prog) (w : world) : Prop :=
+  (fms c = true /\ safe p = true) \/
+  (forall i, (i < length (psites p))%nat -> raises (w_n w + i) = false).
+
+Lemma calm_total p w : calm p w -> in_flight w = false ->
+  let '(w', e) := denote p w in
+  in_flight w' = false /\ sites e = psites p /\ w_n w' = (w_n w + length (psites p))%nat.
+Proof.
+  intros [[Hf Hs]|Hq] Hw; [apply safe_total; assumption | apply quiet_total; assumption].
+Qed.
+
+Lemma calm_seq_l a b w : calm (PSeq a b) w -> calm a w.
+Proof.
+  intros [[Hf Hs]|Hq]; [left | right].
+  - cbn [safe] in Hs. apply andb_true_iff in Hs. tauto.
+  - intros i Hi. apply Hq. cbn [psites]. rewrite app_length. lia.
+Qed.
+Lemma calm_seq_r a b w w1 : calm (PSeq a b) w -> w_n w1 = (w_n w + length (psites a))%nat -> calm b w1.
+Proof.
+  intros [[Hf Hs]|Hq] Hn; [left | right].
+  - cbn [safe] in Hs. apply andb_true_iff in Hs. tauto.
+  - intros i Hi. rewrite Hn, <- Nat.add_assoc. apply Hq. cbn [psites]. rewrite app_length. lia.
+Qed.
+
+Lemma enabled_periodic_resets_calm w : calm (enabled_periodic c) w -> in_flight w = false ->
+  let '(w', e) := denote (enabled_periodic c) w in
+  in_flight w' = false /\ exists st, w_store w' = reset_store c st.
+Proof.
+  intros Hc Hw. unfold enabled_periodic, pseq in *. cbn [fold_right] in *.
+  rewrite (denote_seq c raises writes fbval) by exact Hw.
+  pose proof (calm_total _ w (calm_seq_l _ _ _ Hc) Hw) as H1.
+  destruct (denote (for_components c (fun i => PGuard (PInvoke (SExecute i)))) w) as [w1 e1].
+  destruct H1 as (A1 & _ & A3).
+  pose proof (calm_seq_r _ _ w w1 Hc A3) as Hc2.
+  rewrite (denote_seq c raises writes fbval) by exact A1.
+  pose proof (calm_total _ w1 (calm_seq_l _ _ _ Hc2) A1) as H2.
+  destruct (denote (do_periodics c) w1) as [w2 e2]. destruct H2 as (B1 & _).
+  rewrite (denote_seq c raises writes fbval) by exact B1.
+  cbn [Model.denote]. rewrite B1.
+  destruct (in_flight (do_reset c w2)); cbn; (split; [exact B1|]); exists (w_store w2); reflexivity.
+Qed.
+
+Lemma calm_guard q w : calm (PGuard q) w -> safe q = true \/ (forall i, (i < length (psites q))%nat -> raises (w_n w + i) = false) ->
+  calm q w.
+Proof. intros [[Hf Hs]|Hq] [H|H]; [left; auto | right; exact H | right; exact Hq | right; exact H]. Qed.
+
+Theorem iteration_resets_calm m w : calm (iteration c m) w -> enabled_mode m = true -> in_flight w = false ->
+  let '(w', e) := denote (iteration c m) w in
+  in_flight w' = false /\ forall ci a d, marked c ci a = Some d -> w_store w' ci a = d.
+Proof.
+  intros Hc Hm Hw. destruct m; try discriminate; unfold iteration, pseq in *; cbn [fold_right] in *.
+  - (* Auto *)
+    rewrite (denote_seq c raises writes fbval) by exact Hw.
+    pose proof (calm_total _ w (calm_seq_l _ _ _ Hc) Hw) as H1.
+    destruct (denote (pwhen (has_auto c) (PGuard (PInvoke SAutoIter))) w) as [w1 e1]. destruct H1 as (A1 & _ & A3).
+    pose proof (calm_seq_r _ _ w w1 Hc A3) as Hc2.
+    rewrite (denote_seq c raises writes fbval) by exact A1.
+    pose proof (calm_total _ w1 (calm_seq_l _ _ _ Hc2) A1) as H2.
+    destruct (denote (pwhen (teleop_in_auto c) (PGuard (PInvoke (SPeriodic Teleop)))) w1) as [w2 e2]. destruct H2 as (B1 & _ & B3).
+    pose proof (calm_seq_r _ _ w1 w2 Hc2 B3) as Hc3.
+    rewrite (denote_seq c raises writes fbval) by exact B1.
+    apply calm_seq_l in Hc3.
+    assert (Hc4 : calm (enabled_periodic c) w2).
+    { destruct Hc3 as [[Hf _]|Hq]; [left; split; [exact Hf | apply safe_enabled_periodic] | right; exact Hq]. }
+    cbn [Model.denote]. rewrite B1.
+    pose proof (enabled_periodic_resets_calm w2 Hc4 B1) as H3.
+    destruct (denote (enabled_periodic c) w2) as [w3 e3]. destruct H3 as (C1 & st & C2).
+    rewrite handle_quiet by exact C1. rewrite C1. cbn. split; [exact C1|].
+    intros ci a d Hd. rewrite C2. apply reset_store_marked, Hd.
+  - (* Teleop *)
+    rewrite (denote_seq c raises writes fbval) by exact Hw.
+    pose proof (calm_total _ w (calm_seq_l _ _ _ Hc) Hw) as H1.
+    destruct (denote (PGuard (PInvoke (SPeriodic Teleop))) w) as [w1 e1]. destruct H1 as (A1 & _ & A3).
+    pose proof (calm_seq_r _ _ w w1 Hc A3) as Hc2.
+    rewrite (denote_seq c raises writes fbval) by exact A1.
+    pose proof (enabled_periodic_resets_calm w1 (calm_seq_l _ _ _ Hc2) A1) as H3.
+    destruct (denote (enabled_periodic c) w1) as [w3 e3]. destruct H3 as (C1 & st & C2).
+    cbn [Model.denote]. rewrite C1. cbn. split; [exact C1|].
+    intros ci a d Hd. rewrite C2. apply reset_store_marked, Hd.
+Qed.
+
 Lemma init_store_defaults ci a d : marked c ci a = Some d -> w_store (init_world c) ci a = d.
 Proof. intros H. cbn. rewrite H. reflexivity. Qed.
 
